@@ -38,6 +38,9 @@ PROPS = {
     "C14": {"level": "model_checking", "parts": [
         part("history", "stack", "TestVerifC14"),
         part("race", "stack", "TestVerifC14", race=True, gomaxprocs=4, shards=8)]},
+    "C20": {"level": "exploration", "parts": [
+        part("live", "stack/webstack", "TestVerifC20"),
+        part("churn", "stack/webstack", "TestVerifC20", race=True, gomaxprocs=8, shards=1, thorough_only=True)]},
     "C19": {"level": "exploration", "parts": [part("programs", "stack", "TestVerifC19", shards=1, gomaxprocs=8)]},
     "C18": {"level": "exploration", "parts": [part("layouts", "stack", "TestVerifC18")]},
     "C17": {"level": "exploration", "parts": [part("html", "stack", "TestVerifC17")]},
